@@ -84,6 +84,9 @@ FilesSyslog == {[D EXCEPT !.fmt = "cmd", !.out = "devlog", !.fac = f, !.lvl = l]
 FilesBig == {[D EXCEPT !.fmt = "cmd", !.out = o, !.dsmax = "max", !.logmax = "max"] : o \in {"file", "socket", "devlog", "stdout", "stderr"}}
 CallsBig == {Mk("execve", "p_norm", a, "e_one") : a \in {"a_100k", "a_bytes", "a_4095", "a_4096", "a_4097"}}
 CallOne == {Mk("execv", "p_norm", "a_two", "e_none")}
+(* C04: the pid in the syslog header has 1 to 7 digits (the harness gives the caller exactly this pid inside a private pid namespace) *)
+PidClasses == {"p7", "p99999", "p100000", "p999999", "p1000000", "p4194303"}
+CallsPid == {[kind |-> "execv", path |-> "p_norm", argv |-> "a_two", envp |-> "e_none", pid |-> w] : w \in PidClasses}
 (* C01: every errno value *)
 ResultsErrno == {"E1", "E2", "E3", "E4", "E5", "E6", "E7", "E8", "E9", "E10", "E11", "E12", "E13", "E14", "E15", "E16", "E17", "E18", "E19", "E20", "E21", "E22", "E23", "E24",
                  "E25", "E26", "E27", "E28", "E29", "E30", "E31", "E32", "E33", "E34", "E35", "E36", "E37", "E38", "E39", "E40", "E61", "E62", "E71", "E75", "E84", "E95", "E98",
